@@ -125,6 +125,13 @@ class EinSum(Operation):
             self._cache = Counter(zip((id(v) for v in self.variables), self.in_lbls))
         return self._cache
 
+    def backward(self, grad, **kwargs):
+        # The counts are consumed by `backward_var`. Every pass of back-propagation
+        # through this operation must start from fresh counts: a pass can be aborted
+        # part-way (InvalidBackprop) and then be asked for again.
+        self._cache = None
+        super().backward(grad, **kwargs)
+
     def backward_var(self, grad, index, **kwargs):
         """
         example
